@@ -807,6 +807,8 @@ var builtinSpecFns = map[string]struct {
 	"lower":   {"gs.lower", []string{SStr}, SStr},
 	"upper":   {"gs.upper", []string{SStr}, SStr},
 	"binstr":  {"gs.bin", []string{SInt}, SStr},
+	"nfields": {"gs.nf", []string{SStr, SStr}, SInt},
+	"field":   {"gs.fld", []string{SStr, SStr, SInt}, SStr},
 	"wrapS64": {"wrapS64", []string{SInt}, SInt},
 	"wrapU64": {"wrapU64", []string{SInt}, SInt},
 	"wrapU8":  {"wrapU8", []string{SInt}, SInt},
